@@ -105,5 +105,51 @@ def CloseSite.okWith (owners : List (String × String × String)) (c : CloseSite
 def SendSite.okWith (owners : List (String × String × String)) (s : SendSite) : Bool :=
   s.guard != .none || owners.contains s.site
 
+/-! ## pointer-typed message fields (facts of translate/gen_nilfacts.go)
+
+  A pointer-typed field of a protocol message is nil when the peer omits it.  The extractor reports
+  what the code does with such a field; which uses DEREFERENCE it is decided here. -/
+
+inductive PtrUseKind
+  | fieldSel (f : String)                   -- x.F.f            : a load through the pointer
+  | star                                    -- *x.F
+  | method (m : String)                     -- x.F.m(…)         : dereferences unless m is written for nil receivers
+  | arg (callee : String) (idx : Nat)       -- callee(…, x.F, …): whatever the callee does with it
+  | argFollowed (callee : String) (idx : Nat) -- same, and the extractor listed the uses of the parameter in the callee
+  | nilCmp                                  -- x.F == nil, x.F != nil
+  | store                                   -- x.F = …, T{F: x.F}: the pointer is copied, not followed
+  | other (what : String)                   -- a shape the extractor does not classify (alias, return, send …)
+  deriving DecidableEq, Repr
+
+structure PtrUse where
+  file : String
+  fn : String
+  line : Nat
+  expr : String
+  field : String      -- Owner.Field
+  typ : String        -- declared type of the field
+  kind : PtrUseKind
+  guarded : Bool      -- under `if expr != nil` / after `if expr == nil { return | continue | … }`
+  deriving DecidableEq, Repr
+
+def PtrUse.site (u : PtrUse) : String × String × String := (u.file, u.fn, u.expr)
+
+/-- may this use follow a nil pointer?  `nilSafe` = (type, method) pairs whose method starts with a nil
+    test of the receiver; `tolerant` = callees that test the argument before using it (both pinned in
+    Props/C16.lean from reading the callee's source). Unclassified shapes count as dereferences. -/
+def PtrUse.derefs (nilSafe : List (String × String)) (tolerant : List String) (u : PtrUse) : Bool :=
+  match u.kind with
+  | .fieldSel _ => true
+  | .star => true
+  | .method m => !nilSafe.contains (u.typ, m)
+  | .arg callee _ => !tolerant.contains callee
+  | .argFollowed _ _ => false
+  | .nilCmp => false
+  | .store => false
+  | .other _ => true
+
+def PtrUse.okWith (nilSafe : List (String × String)) (tolerant : List String) (u : PtrUse) : Bool :=
+  u.guarded || !u.derefs nilSafe tolerant
+
 end LockDisc
 end Frp
